@@ -501,6 +501,27 @@ fn run(ctx: &mut Ctx) {
             });
             let sub = format!("pairs/p{}", pi);
             ctx.run_prop(&sub, per_pair * qs.len() as u32, strat, |(qi, v)| check_case(pi, *qi, v));
+            // every length of name, string and byte vector up to 130 (600): a
+            // fixed-size buffer in one of the printer's spellings is off by one
+            // at exactly one length
+            {
+                let q0 = qs[0];
+                for len in 1..=tier.pick(130usize, 600usize) {
+                    let name: String = std::iter::once('k').chain(std::iter::repeat('a').take(len - 1)).collect();
+                    let wide: String = std::iter::repeat('é').take(len / 2).chain(std::iter::repeat('a').take(len % 2)).collect();
+                    let mut items = vec![MV::Kw(name.clone()), MV::Sym(name.clone()), MV::Str(name), MV::Kw(if wide.is_empty() { "w".into() } else { wide })];
+                    if bytes_allowed(&p) {
+                        items.push(MV::Bytes((0..len).map(|i| (i % 251) as u8).collect()));
+                    }
+                    let v = MV::list(items);
+                    if in_domain(&p, &q0, &v) {
+                        ctx.observe("every-length", check_case(pi, q0.index(), &v));
+                    } else {
+                        ctx.exclude("length-sweep value outside the pair's domain", 1);
+                    }
+                }
+                ctx.flush_failures();
+            }
             // hundreds of the same small thing in one value (what costs a little
             // per item shows only in numbers), then generated wide values
             {
